@@ -2,8 +2,9 @@
    Executable definitions only; proofs are in Proofs.v.
 
    The arithmetic leaves (likelihood / posterior / chi-squared conversion / pyswarms resample value)
-   and the three implementation traits (does the history keep the caller's buffer by reference, is the
-   chi-squared conversion performed in place, does the pyswarms fitness record a history) are
+   and the four implementation traits (does the history keep the caller's buffer by reference, is the
+   chi-squared conversion performed in place, does the pyswarms fitness record a history, are the history
+   lists created only after the constructor's sanity evaluation) are
    REGENERATED from /repo into Gen.v on every run; everything here is written over an abstract
    number type so that the same definitions run bit-exactly on binary64 (correspondence) and on
    exact rationals (theorems about the meaning of the formulas). *)
